@@ -15,6 +15,7 @@ Exit status: 0 property held on everything explored (KNOWN-FINDING lines may be 
              2 the check itself is broken or inconclusive (vacuous witness, translator disagreement,
                mandatory query without verdict) — never reported as success.
 """
+import shlex
 import sys, os, re, json, time, subprocess, shutil, importlib.util, signal, threading, hashlib
 from concurrent.futures import ThreadPoolExecutor, as_completed
 
@@ -129,10 +130,10 @@ class Runner:
                     if r.returncode != 0: raise Broken('g++ failed on %s:\n%s' % (u.src, r.stdout[-3000:]))
                 objs.append(cached)
             else:
-                dkey = hashlib.sha256(' '.join(sorted(defs)).encode()).hexdigest()[:10] if u.flat else 'x'     # flat units depend on the region layout macros
+                dkey = hashlib.sha256(' '.join(sorted(defs)).encode()).hexdigest()[:10]     # the generated C depends on the query's defines (region layout, event hooks)
                 cached = os.path.join(self.work, '%s.%s.gen.o' % (un, dkey))
                 if not os.path.exists(cached):
-                    r = sh(['gcc', '-std=gnu11', '-g', '-O1', '-w', '-c', os.path.join(self.work, un + '.c'), '-o', cached] + inc + (defs if u.flat else []))
+                    r = sh(['gcc', '-std=gnu11', '-g', '-O1', '-w', '-c', os.path.join(self.work, un + '.c'), '-o', cached] + inc + defs)
                     if r.returncode != 0: raise Broken('gcc failed on generated %s.c:\n%s' % (un, r.stdout[-3000:]))
                 objs.append(cached)
         r = sh(['g++', '-o', out] + objs + (san if real else []) + ['-pthread'])
@@ -234,6 +235,7 @@ class Runner:
             q._lb_done = True
         cmd = self.cbmc_cmd(q)
         out = os.path.join(self.work, 'q_' + self.safe(q.name) + '.out')
+        with open(out[:-4] + '.cmd', 'w') as fc: fc.write(' '.join(shlex.quote(c) for c in cmd) + '\n')
         t0 = time.time()
         wrapper = 'ulimit -v %d; exec /usr/bin/time -f "VPRSS=%%M" "$@"' % (int(q.mem_gb * 1024 * 1024))
         with open(out, 'w') as fo:
@@ -392,13 +394,18 @@ class Runner:
                 if (not self.abort and os.environ.get('VP_FAILFAST', '1') != '0' and q.kind == 'main' and r['verdict'] == 'failed'
                         and any(not x['desc'].startswith('WITNESS') and 'unwinding assertion' not in x['desc'] for x in r['failed'])):
                     nfail = getattr(self, 'nfail', 0) + 1; self.nfail = nfail
-                    if nfail >= int(os.environ.get('VP_FAILFAST_AFTER', '3')):
+                    def stop(why):
+                        if self.abort: return
                         self.abort = True
-                        self.say('[run] %d queries have counterexamples: stopping the remaining queries (fail-fast; VP_FAILFAST=0 runs everything)' % nfail)
+                        self.say('[run] %s: stopping the remaining queries (fail-fast; VP_FAILFAST=0 runs everything)' % why)
                         with self.run_lock:
                             for pid in list(self.running):
                                 try: os.killpg(pid, signal.SIGKILL)
                                 except ProcessLookupError: pass
+                    if nfail >= int(os.environ.get('VP_FAILFAST_AFTER', '3')): stop('%d queries have counterexamples' % nfail)
+                    elif nfail == 1:      # one counterexample decides the run; give the other queries a grace period, then stop them
+                        t = threading.Timer(float(os.environ.get('VP_FAILFAST_GRACE', '120')), stop, args=('a counterexample was found %s s ago' % os.environ.get('VP_FAILFAST_GRACE', '120'),))
+                        t.daemon = True; t.start()
         return self.judge(qs)
 
     def judge(self, qs):
